@@ -32,15 +32,17 @@ def headLenOf (infos : Array RuleInfo) (rule len : Nat) (inp : List UInt8) : Nat
   | _ => len
 
 /-- rule numbers in an accepting label, flags stripped, head markers dropped -/
-def labelRules (l : List Int) : List Nat :=
-  l.filterMap fun a =>
-    let n := a.toNat
-    if n &&& YY_TRAILING_HEAD_MASK != 0 then none else some (n &&& (YY_TRAILING_MASK - 1))
+def labelRules (reject : Bool) (l : List Int) : List Nat :=
+  if reject then
+    l.filterMap fun a =>
+      let n := a.toNat
+      if n &&& YY_TRAILING_HEAD_MASK != 0 then none else some (n &&& (YY_TRAILING_MASK - 1))
+  else l.map Int.toNat     -- without REJECT `yy_accept` holds plain rule numbers
 
 def tableCands (T : Tables) (sc : Nat) (bol : Bool) (inp : List UInt8) : List (Nat × Nat) :=
   let rec go (st : DState) (rest : List UInt8) (len : Nat) (acc : List (Nat × Nat)) : List (Nat × Nat) :=
     let here := match T.label st with
-      | some l => (labelRules l).map fun r => (len, r)
+      | some l => (labelRules T.reject l).map fun r => (len, r)
       | none => []
     let acc := here ++ acc         -- longer lengths are prepended later: acc stays longest-first
     match rest with
